@@ -66,6 +66,9 @@ func SeedFor(base uint64, prop string, i int) uint64 {
 	return mix(h ^ uint64(i)*0x9e3779b97f4a7c15)
 }
 
+// TraceLimit overrides the trace ring size (debugging).
+var TraceLimit int
+
 // Sched is the per-run scheduler configuration; part of every case so that a
 // replay is a pure function of the case.
 type Sched struct {
@@ -130,6 +133,9 @@ func GenSched(r *Rand, profile string) Sched {
 func (s Sched) Config() simrt.Config {
 	c := simrt.Config{Seed: s.Seed, Strategy: s.Strategy, StickyP: s.StickyP, PCTDepth: s.PCTDepth, PCTSpan: s.PCTSpan,
 		TimePassP: s.TimePassP, Density: s.Density, MaxSteps: s.MaxSteps}
+	if TraceLimit > 0 {
+		c.TraceLimit = TraceLimit
+	}
 	if s.MaxVirtS > 0 {
 		c.MaxVirtual = time.Duration(s.MaxVirtS) * time.Second
 	}
